@@ -111,75 +111,103 @@ theorem compareAngle_lt_iff (o p q : Pt) (hp : p ≠ o) (hq : q ≠ o) :
   rw [h, ← hu1, ← hu2]
   cases upper o p <;> cases upper o q <;> simp
 
-/-! ### `compareAngle = 0` is "same direction" -/
+/-! ### the quadrant cones -/
 
-theorem eq_core (px py qx qy : Int) (hp : px ≠ 0 ∨ py ≠ 0) (hq : qx ≠ 0 ∨ qy ≠ 0) :
-    (if quadrantD px py > quadrantD qx qy then (1 : Int) else if quadrantD px py < quadrantD qx qy then -1
-      else if 0 < qx * py - qy * px then 1 else if qx * py - qy * px < 0 then -1 else 0) = 0 ↔
-    (px * qy - py * qx = 0 ∧ px * qx + py * qy > 0) := by
-  have s1 := mulSign qx py
-  have s2 := mulSign qy px
-  have s3 := mulSign px qx
-  have s4 := mulSign py qy
-  have e1 : py * qx = qx * py := by ring
-  have e2 : px * qy = qy * px := by ring
-  rw [e1, e2]
-  generalize qx * py = A at *
-  generalize qy * px = B at *
-  generalize px * qx = C at *
-  generalize py * qy = E at *
-  rcases quadrantD_cases px py with ⟨h1, h2, h3⟩ | ⟨h1, h2, h3⟩ | ⟨h1, h2, h3⟩ | ⟨h1, h2, h3⟩ <;>
-  rcases quadrantD_cases qx qy with ⟨k1, k2, k3⟩ | ⟨k1, k2, k3⟩ | ⟨k1, k2, k3⟩ | ⟨k1, k2, k3⟩ <;>
-  rw [h3, k3] <;> constructor <;> intro h <;> split_ifs at h ⊢ <;> omega
+/-- a linear functional that is positive on every non-zero vector of the (half-open) quadrant of `(dx, dy)` -/
+def qf (k : Nat) (dx dy : Int) : Int :=
+  if k = 0 then dx + dy else if k = 1 then -dx + dy else if k = 2 then -dx - dy else dx - dy
 
-theorem sameDir_iff (o p q : Pt) : sameDir o p q = true ↔ (det o p q = 0 ∧ dot o p q > 0) := by
-  unfold sameDir; simp
+theorem qf_pos (dx dy : Int) (h : dx ≠ 0 ∨ dy ≠ 0) : 0 < qf (quadrantD dx dy) dx dy := by
+  rcases quadrantD_cases dx dy with ⟨h1, h2, h3⟩ | ⟨h1, h2, h3⟩ | ⟨h1, h2, h3⟩ | ⟨h1, h2, h3⟩ <;>
+    rw [h3] <;> simp [qf] <;> omega
 
-/-- `compareAngle o p q = 0` exactly when `p` and `q` are on the same ray from `o` -/
-theorem compareAngle_eq_zero_iff (o p q : Pt) (hp : p ≠ o) (hq : q ≠ o) :
-    compareAngle o p q = 0 ↔ sameDir o p q = true := by
-  rw [compareAngle_nf, sameDir_iff]
-  rw [ne_iff_vec] at hp hq
-  have h := eq_core (p.x - o.x) (p.y - o.y) (q.x - o.x) (q.y - o.y) hp hq
-  have hd1 : det o q p = (q.x - o.x) * (p.y - o.y) - (q.y - o.y) * (p.x - o.x) := rfl
-  have hd2 : det o p q = (p.x - o.x) * (q.y - o.y) - (p.y - o.y) * (q.x - o.x) := rfl
-  have hd3 : dot o p q = (p.x - o.x) * (q.x - o.x) + (p.y - o.y) * (q.y - o.y) := rfl
-  simp only [quadrant, hd1, hd2, hd3]
-  exact h
+/-- the three-vector identity, for any linear functional `a x + b y` -/
+theorem cross3 (a b ux uy vx vy wx wy : Int) :
+    (a * vx + b * vy) * (ux * wy - uy * wx) =
+      (ux * vy - uy * vx) * (a * wx + b * wy) + (vx * wy - vy * wx) * (a * ux + b * uy) := by ring
 
-/-! ### transitivity -/
+theorem qf_lin (k : Nat) : ∃ a b : Int, ∀ x y, qf k x y = a * x + b * y := by
+  unfold qf
+  by_cases h0 : k = 0
+  · exact ⟨1, 1, fun x y => by simp [h0]⟩
+  by_cases h1 : k = 1
+  · exact ⟨-1, 1, fun x y => by simp [h1]⟩
+  by_cases h2 : k = 2
+  · exact ⟨-1, -1, fun x y => by simp [h2]; ring⟩
+  · exact ⟨1, -1, fun x y => by simp [h0, h1, h2]; ring⟩
 
-/-- `u < v` in the half-plane/cross-product order, on bare vectors -/
-def vLt (ux uy vx vy : Int) : Prop :=
-  ((uy > 0 ∨ (uy = 0 ∧ ux > 0)) ∧ ¬ (vy > 0 ∨ (vy = 0 ∧ vx > 0))) ∨
-  (((uy > 0 ∨ (uy = 0 ∧ ux > 0)) ↔ (vy > 0 ∨ (vy = 0 ∧ vx > 0))) ∧ ux * vy - uy * vx > 0)
+/-- inside one quadrant cone "counter-clockwise of" is transitive -/
+theorem cone_trans (k : Nat) (ux uy vx vy wx wy : Int)
+    (fu : 0 < qf k ux uy) (fv : 0 < qf k vx vy) (fw : 0 < qf k wx wy)
+    (h1 : 0 < ux * vy - uy * vx) (h2 : 0 < vx * wy - vy * wx) : 0 < ux * wy - uy * wx := by
+  obtain ⟨a, b, hl⟩ := qf_lin k
+  rw [hl] at fu fv fw
+  have id := cross3 a b ux uy vx vy wx wy
+  have t2 := Int.mul_pos h1 fw
+  have t3 := Int.mul_pos h2 fu
+  nlinarith
 
-theorem vLt_trans (ux uy vx vy wx wy : Int) (hu : ux ≠ 0 ∨ uy ≠ 0) (hv : vx ≠ 0 ∨ vy ≠ 0) (hw : wx ≠ 0 ∨ wy ≠ 0)
-    (h1 : vLt ux uy vx vy) (h2 : vLt vx vy wx wy) : vLt ux uy wx wy := by
-  unfold vLt at *
-  have id1 : vy * (ux * wy - uy * wx) = (ux * vy - uy * vx) * wy + (vx * wy - vy * wx) * uy := by ring
-  have id2 : vx * (ux * wy - uy * wx) = (ux * vy - uy * vx) * wx + (vx * wy - vy * wx) * ux := by ring
-  have a1 := mulSign ux vy
-  have a2 := mulSign uy vx
-  have a3 := mulSign vx wy
-  have a4 := mulSign vy wx
-  have t1 := mulSign vy (ux * wy - uy * wx)
-  have t2 := mulSign (ux * vy - uy * vx) wy
-  have t3 := mulSign (vx * wy - vy * wx) uy
-  have t4 := mulSign vx (ux * wy - uy * wx)
-  have t5 := mulSign (ux * vy - uy * vx) wx
-  have t6 := mulSign (vx * wy - vy * wx) ux
-  generalize vy * (ux * wy - uy * wx) = T1 at *
-  generalize (ux * vy - uy * vx) * wy = T2 at *
-  generalize (vx * wy - vy * wx) * uy = T3 at *
-  generalize vx * (ux * wy - uy * wx) = T4 at *
-  generalize (ux * vy - uy * vx) * wx = T5 at *
-  generalize (vx * wy - vy * wx) * ux = T6 at *
-  generalize ux * wy - uy * wx = X at *
-  generalize ux * vy = P1 at *
-  generalize uy * vx = P2 at *
-  generalize vx * wy = Q1 at *
-  generalize vy * wx = Q2 at *
-  omega
+/-- inside one quadrant cone "same direction" is transitive -/
+theorem cone_eq_trans (k : Nat) (ux uy vx vy wx wy : Int)
+    (fv : 0 < qf k vx vy)
+    (h1 : ux * vy - uy * vx = 0) (h2 : vx * wy - vy * wx = 0) : ux * wy - uy * wx = 0 := by
+  obtain ⟨a, b, hl⟩ := qf_lin k
+  rw [hl] at fv
+  have id := cross3 a b ux uy vx vy wx wy
+  rw [h1, h2] at id
+  simp only [Int.zero_mul, Int.add_zero] at id
+  rcases Int.mul_eq_zero.mp id with h | h
+  · omega
+  · exact h
+
+/-! ### transitivity of `compareAngle` -/
+
+theorem compareAngle_eq_neg_one (o p q : Pt) :
+    compareAngle o p q = -1 ↔ (quadrant o p < quadrant o q ∨ (quadrant o p = quadrant o q ∧ det o q p < 0)) := by
+  rw [compareAngle_nf]; split_ifs <;> constructor <;> intro h <;> omega
+
+theorem compareAngle_eq_zero (o p q : Pt) :
+    compareAngle o p q = 0 ↔ (quadrant o p = quadrant o q ∧ det o q p = 0) := by
+  rw [compareAngle_nf]; split_ifs <;> constructor <;> intro h <;> omega
+
+theorem det_vec (o p q : Pt) : det o p q = (p.x - o.x) * (q.y - o.y) - (p.y - o.y) * (q.x - o.x) := rfl
+
+/-- transitivity of the strict order -/
+theorem compareAngle_trans (o p q r : Pt) (hp : p ≠ o) (hq : q ≠ o) (hr : r ≠ o)
+    (h1 : compareAngle o p q = -1) (h2 : compareAngle o q r = -1) : compareAngle o p r = -1 := by
+  rw [compareAngle_eq_neg_one] at *
+  rcases h1 with h1 | ⟨e1, d1⟩ <;> rcases h2 with h2 | ⟨e2, d2⟩
+  · left; omega
+  · left; omega
+  · left; omega
+  · right
+    refine ⟨by omega, ?_⟩
+    rw [ne_iff_vec] at hp hq hr
+    have fp := qf_pos _ _ hp
+    have fq := qf_pos _ _ hq
+    have fr := qf_pos _ _ hr
+    unfold quadrant at e1 e2
+    rw [← e1] at fr; rw [e1] at fr
+    have fp' : 0 < qf (quadrantD (q.x - o.x) (q.y - o.y)) (p.x - o.x) (p.y - o.y) := by rw [← e1]; exact fp
+    have fr' : 0 < qf (quadrantD (q.x - o.x) (q.y - o.y)) (r.x - o.x) (r.y - o.y) := by rw [e2]; exact fr
+    rw [det_vec] at d1 d2 ⊢
+    have := cone_trans _ (p.x - o.x) (p.y - o.y) (q.x - o.x) (q.y - o.y) (r.x - o.x) (r.y - o.y) fp' fq fr'
+      (by linarith) (by linarith)
+    linarith
+
+/-- transitivity of "incomparable" (`compareAngle = 0`): together with `compareAngle_trans`, `compareAngle_antisymm`
+and `compareAngle_range` this makes `compareAngle o · · = -1` a strict weak order on the directions from `o` -/
+theorem compareAngle_eq_trans (o p q r : Pt) (hq : q ≠ o)
+    (h1 : compareAngle o p q = 0) (h2 : compareAngle o q r = 0) : compareAngle o p r = 0 := by
+  rw [compareAngle_eq_zero] at *
+  obtain ⟨e1, d1⟩ := h1
+  obtain ⟨e2, d2⟩ := h2
+  refine ⟨by omega, ?_⟩
+  rw [ne_iff_vec] at hq
+  have fq := qf_pos _ _ hq
+  rw [det_vec] at d1 d2 ⊢
+  have := cone_eq_trans _ (p.x - o.x) (p.y - o.y) (q.x - o.x) (q.y - o.y) (r.x - o.x) (r.y - o.y) fq
+    (by linarith) (by linarith)
+  linarith
 
 end GeosModel.Valid
